@@ -181,7 +181,7 @@ fn block_event(seq: usize, src: &str, buf: &[u8], rb: &raw::RawBlock, blk: &Mult
     })
 }
 
-/// A variant of a real Alonzo+ block: same header, bodies and witness sets, but a random invalid list
+/// A variant of a real Shelley+ block (every wrapper tag 2..7 - the eras share the block type): same header, bodies and witness sets, but a random invalid list
 /// (any order, repeated / out-of-range indices) and the aux data re-keyed to random distinct indices in a
 /// random wire order.
 fn variant(buf: &[u8], rb: &raw::RawBlock, rng: &mut Rng) -> Vec<u8> {
@@ -265,7 +265,7 @@ pub fn trace(args: &Args) {
     let mut vblocks = Vec::new();
     if n_variants > 0 {
         let mut cands: Vec<usize> = (0..blocks.len())
-            .filter(|i| raw::parse_block(&blocks[*i].1).map(|r| r.tag >= 5 && !r.bodies.is_empty() && r.bodies.len() <= 60).unwrap_or(false))
+            .filter(|i| raw::parse_block(&blocks[*i].1).map(|r| r.tag >= 2 && !r.bodies.is_empty() && r.bodies.len() <= 60).unwrap_or(false))
             .collect();
         rng.shuffle(&mut cands);
         cands.truncate(max_variant_blocks);
